@@ -100,6 +100,7 @@ def promotion_monitor(spec, events, sched):
     paused = set()
     failed = set()
     caps = {}
+    done_cost = {}
     nxt_level = lambda L: next((x for x in levels if x > L), max_t)
 
     def add(sig, what, ev):
@@ -177,6 +178,20 @@ def promotion_monitor(spec, events, sched):
             paused.discard(t)
         elif k == "result":
             t, r, d = ev["trial"], ev["resource"], ev["decision"]
+            if typ == "cost_promotion" and spec.get("checkpointing", True) and ev.get("cost") is not None and ev["prev_decision"] == "CONTINUE":
+                # scripts with checkpointing report the cost since the start of the current run: the cost of a trial up
+                # to a level is the sum over its runs; that total is what the rung entry has to carry
+                total = done_cost.get(t, 0.0) + ev["cost"]
+                if d != "CONTINUE":
+                    done_cost[t] = total
+                if ev.get("rung_costs_after"):
+                    sysi = ev["bracket"] if per else 0
+                    for (lv, _), row in zip(ev["rungs_after"][sysi], ev["rung_costs_after"][sysi]):
+                        if lv == r:
+                            for tid_, c_ in row:
+                                if tid_ == t and abs(_f(c_) - total) > 1e-9 * max(1.0, total):
+                                    add("c04:cost-rule:entry-cost-not-total",
+                                        f"cost-aware promotion: trial {t} recorded at rung {r} with cost {_f(c_)}, its runs so far cost {total} in total", ev)
             if typ == "pasha":
                 for i, (a, b2) in enumerate(zip(ev["pasha_before"], ev["pasha_after"])):
                     if b2[1] < a[1]:
